@@ -48,7 +48,7 @@ State at the end: **%d of the %d are reported with exit 1 by at least one quick 
 they were written against**; not reported: %s. %d of them were *not* reported (or reported only as exit 2) when first
 run; what was strengthened is in the last column. The miss rate fell from round to round (rounds 1-2: 15 of 35; round 8:
 5 of 7; round 9: 5 of 12, three of them duplicates of earlier changes found again for another property; round 10, whose
-agents were told to stay out of Knuth's division: 0 of 8; round 11: 2 of 6 missed and then closed, one left at exit 2). The strengthenings exposed genuine defects of the pinned tree (D18/D19,
+agents were told to stay out of Knuth's division: 0 of 8; round 11: 2 of 6 missed and one reported only as exit 2, all three closed). The strengthenings exposed genuine defects of the pinned tree (D18/D19,
 D20, D22, D23, D24) and two engine bugs of mine (section 6).
 
 | change | property | what was changed | what it needs to manifest | confirmed | reported by (violations, quick tier) | history |
@@ -80,7 +80,7 @@ floors fail the check when instances vanish, and references state comparisons on
 
 ---------------------------------------------------------------------------------------------------------------------
 
-""" % (n, len(e), nfix, len(reported), n, len(own), "M-C02-6, M-C04-5 and M-C10-4 (all three inside Knuth's division, the one part of the multi-limb arithmetic that is not decided, see 2.5b) and M-C17-1 (its property, C17, is not applicable)" + "; M-C19-7 makes C19 exit 2 (its analysed loops vanish), not 1" if not_rep == ["M-C02-6", "M-C04-5", "M-C10-4", "M-C17-1", "M-C19-7"] else (", ".join(not_rep) or "none"), len(missed_first), "\n".join(m), "\n".join(e))
+""" % (n, len(e), nfix, len(reported), n, len(own), "M-C02-6, M-C04-5 and M-C10-4 (all three inside Knuth's division, the one part of the multi-limb arithmetic that is not decided, see 2.5b) and M-C17-1 (its property, C17, is not applicable)" if not_rep == ["M-C02-6", "M-C04-5", "M-C10-4", "M-C17-1"] else (", ".join(not_rep) or "none"), len(missed_first), "\n".join(m), "\n".join(e))
     p = os.path.join(V, "DESIGN.md")
     s = open(p).read()
     a, b = s.index("## 7. Seeded changes"), s.index("## 8. Layout")
